@@ -9,6 +9,7 @@ import (
 	"os/exec"
 	"path/filepath"
 	"sort"
+	"strconv"
 	"strings"
 	"time"
 
@@ -138,6 +139,37 @@ func (s site) del() bool {
 	return false
 }
 
+// delElem removes element idx of the array stored under key in its grandparent.
+func delArrayElem(root any, path []string) bool {
+	if len(path) < 2 {
+		return false
+	}
+	var cur any = root
+	for _, seg := range path[:len(path)-2] {
+		switch n := cur.(type) {
+		case map[string]any:
+			cur = n[seg]
+		case []any:
+			i, err := strconv.Atoi(seg)
+			if err != nil || i >= len(n) {
+				return false
+			}
+			cur = n[i]
+		}
+	}
+	holder, ok := cur.(map[string]any)
+	if !ok {
+		return false
+	}
+	arr, ok := holder[path[len(path)-2]].([]any)
+	idx, err := strconv.Atoi(path[len(path)-1])
+	if !ok || err != nil || idx >= len(arr) {
+		return false
+	}
+	holder[path[len(path)-2]] = append(append([]any{}, arr[:idx]...), arr[idx+1:]...)
+	return true
+}
+
 func swapType(t *rapid.T, v any) any {
 	alts := []any{"text", 1.5, float64(7), true, []any{}, map[string]any{}, []any{"x"}, map[string]any{"k": "v"}}
 	for i := 0; i < 6; i++ {
@@ -171,7 +203,7 @@ func mutate(t *rapid.T, root map[string]any) (string, []string) {
 		name string
 		w    int
 	}
-	ops := []op{{"delete", 4}, {"null", 3}, {"swap", 4}, {"drop-schema", 3}, {"schema-to-content", 2}, {"drop-items", 2}, {"server-var", 2},
+	ops := []op{{"delete-elem", 2}, {"disc-mapping", 2}, {"delete", 4}, {"null", 3}, {"swap", 4}, {"drop-schema", 3}, {"schema-to-content", 2}, {"drop-items", 2}, {"server-var", 2},
 		{"bad-ref", 3}, {"cyclic-ref", 2}, {"bad-type", 2}, {"empty-map", 2}, {"param-missing", 2}, {"status-pattern", 1}, {"dup-path-var", 1}}
 	var names []string
 	for _, o := range ops {
@@ -187,6 +219,40 @@ func mutate(t *rapid.T, root map[string]any) (string, []string) {
 		return ss[rapid.IntRange(0, len(ss)-1).Draw(t, "site")], true
 	}
 	switch name {
+	case "delete-elem":
+		var elems []site
+		for _, s := range sites {
+			if _, ok := s.parent.([]any); ok {
+				elems = append(elems, s)
+			}
+		}
+		if s, ok := pick(elems); ok && delArrayElem(root, s.path) {
+			return "delete-elem", s.path
+		}
+	case "disc-mapping":
+		// a discriminator whose mapping points at schemas that are not among the oneOf
+		// alternatives (or do not exist), under keys that differ from the target names
+		comps, _ := root["components"].(map[string]any)
+		if comps == nil {
+			comps = map[string]any{}
+			root["components"] = comps
+		}
+		schemas, _ := comps["schemas"].(map[string]any)
+		if schemas == nil {
+			schemas = map[string]any{}
+			comps["schemas"] = schemas
+		}
+		obj := func(p string) map[string]any {
+			return map[string]any{"type": "object", "properties": map[string]any{"kind": map[string]any{"type": "string"}, p: map[string]any{"type": "string"}}, "required": []any{"kind"}}
+		}
+		schemas["DmA"], schemas["DmB"], schemas["DmC"] = obj("a"), obj("b"), obj("c")
+		target := rapid.SampledFrom([]string{"#/components/schemas/DmC", "DmC", "#/components/schemas/Nowhere", "Nowhere", "#/components/schemas/DmA", ""}).Draw(t, "dm_target")
+		schemas["DmChoice"] = map[string]any{"oneOf": []any{map[string]any{"$ref": "#/components/schemas/DmA"}, map[string]any{"$ref": "#/components/schemas/DmB"}},
+			"discriminator": map[string]any{"propertyName": "kind", "mapping": map[string]any{"see": target, "bee": "#/components/schemas/DmB"}}}
+		if s, ok := pick(byKey("schema")); ok && rapid.Bool().Draw(t, "use_choice") {
+			s.set(map[string]any{"$ref": "#/components/schemas/DmChoice"})
+		}
+		return "disc-mapping", []string{"components", "schemas", "DmChoice"}
 	case "delete":
 		if s, ok := pick(sites); ok && s.del() {
 			return "delete", s.path
